@@ -217,6 +217,22 @@ CAMPAIGNS.update({
                   ex(ph(LAYOUT), ph(["subset_read"], True, "r", 30))]),
 })
 
+CAMPAIGNS.update({
+    "summaries": model_campaign(
+        "summaries", palettes=[["plain", "plain"], ["unicode", "plain"], ["numeric_ids", "plain"], ["long_ids", "plain"],
+                               ["plain", "scale_up"], ["unicode", "scale_down"]], heaps="sum",
+        quick=[ex(ph(["summary"], True)),
+               ex(ph(LAYOUT + ["subsample"], pick=8), ph(["summary"], True, pick=14)),
+               ex(ph(LAYOUT, pick=5), ph(LAYOUT, pick=3), ph(["summary"], True, pick=6))],
+        thorough=[ex(ph(LAYOUT + ["subsample"]), ph(["summary"], True)),
+                  ex(ph(LAYOUT), ph(LAYOUT, pick=6), ph(["summary"], True, pick=14))]),
+    "constructions": model_campaign(
+        "constructions", palettes=MOVE, heaps="ctor",
+        quick=[ex(ph(["construct", "construct_bad", "from_adjacency", "parse_uc"], True, "r"))],
+        thorough=[ex(ph(["construct", "construct_bad", "from_adjacency", "parse_uc"], True, "r")),
+                  ex(ph(LAYOUT), ph(["construct", "construct_bad"], True, "r"))]),
+})
+
 CAMPAIGNS["err_profile"] = {
     "name": "err_profile", "kind": "err", "judge": ["BiomErrTrace.tla", "BiomErrTrace.cfg"],
     "cfgs": {"quick": [{"depth": 2, "nest": 3, "pick": [0, 0]},
@@ -227,6 +243,8 @@ CAMPAIGNS["err_profile"] = {
                           {"depth": 8, "nest": 3, "pick": [8, 4, 3, 3, 2, 2, 2, 2]}]}}
 
 PROPERTIES = {
+    "C17": {"level": "model_checking", "campaigns": [CAMPAIGNS["constructions"]], "assumptions": []},
+    "C19": {"level": "model_checking", "campaigns": [CAMPAIGNS["summaries"]], "assumptions": []},
     "C01": {"level": "model_checking", "campaigns": [CAMPAIGNS["hdf5_roundtrip"]], "assumptions": []},
     "C04": {"level": "model_checking", "campaigns": [CAMPAIGNS["hdf5_roundtrip"]], "assumptions": []},
     "C02": {"level": "model_checking", "campaigns": [CAMPAIGNS["json_roundtrip"]], "assumptions": []},
